@@ -167,5 +167,5 @@ def case_reject(rng: Any, ctx: Ctx, index: int) -> None:
 
 def run(ctx: Ctx) -> None:
     enable('mvref')
+    drive(ctx, case_reject, 100, 400, stream=1, part='diag')   # small fixed-count part first (never starved by the time cap)
     drive(ctx, case, 4000, 40000, stream=0, part='diag')
-    drive(ctx, case_reject, 100, 400, stream=1, part='diag')
